@@ -8,7 +8,7 @@ ASSUMPTIONS = ['the failing reader returns any number of Interrupted results and
 TRUSTED = ['std::io::Bytes, write_all']
 
 def run(ctx):
-    rnd = ctx['rnd']; n = 25 if ctx['tier'] == 'quick' else 300
+    rnd = ctx['rnd']; n = 45 if ctx['tier'] == 'quick' else 300
     cases = []; meta = {}
     for i in range(n):
         cfg0 = gen.pipeline_cfg(rnd, want_limit=False); cfg0['skip'] = 0; cfg0['take'] = None
